@@ -9,6 +9,14 @@ pub open spec fn filt<'t>(k: Sel, s: Seq<Token<'t>>) -> Seq<Token<'t>> decreases
 }
 pub open spec fn nonskip<'t>(s: Seq<Token<'t>>) -> Seq<Token<'t>> { filt(Sel::Sig, s) }
 pub open spec fn comments<'t>(s: Seq<Token<'t>>) -> Seq<Token<'t>> { filt(Sel::Comment, s) }
+// line/column after advancing over a text, as the scanner counts them ('\n' starts a new line at column 1; saturating at u32::MAX)
+pub open spec fn sat32(x: int) -> int { if x > 0xFFFF_FFFF { 0xFFFF_FFFF } else { x } }
+pub open spec fn adv(line: int, col: int, s: Seq<char>) -> (int, int) decreases s.len() {
+    if s.len() == 0 { (line, col) } else {
+        let p = adv(line, col, s.drop_last());
+        if s.last() == '\n' { (sat32(p.0 + 1), 1int) } else { (p.0, sat32(p.1 + 1)) }
+    }
+}
 pub open spec fn types<'t>(s: Seq<Token<'t>>) -> Seq<u16> { s.map_values(|t: Token<'t>| t.token_type) }
 pub open spec fn is_nth<'t>(s: Seq<Token<'t>>, n: int, j: int) -> bool {
     0 <= j < s.len() && !eff_skip(s[j]) && nonskip(s.take(j)).len() == n
